@@ -2,7 +2,7 @@
    into Gen/Codecs.v): totality and dimensions. *)
 From Coq Require Import ZArith List Ascii Bool.
 From Cspuz Require Import Lib.PyErr Codec.Comb Codec.CombWf Codec.Yajilin Codec.Puzzles
-  Codec.TotalModel Codec.TotalLeaf Codec.TotalRooms Codec.Total Codec.TotalDims Gen.Codecs.
+  Codec.TotalModel Codec.TotalLeaf Codec.TotalRooms Codec.Total Codec.TotalDims Codec.TotalRedecode Gen.Codecs.
 Import ListNotations.
 Local Open Scope Z_scope.
 
@@ -52,4 +52,18 @@ Proof.
     exists w, h, rooms, values. auto.
   - eapply url_rooms_dims_lemma in Hv; [|exact E]. destruct Hv as (w & h & p & Pw & Ph & Hs & ->). exists w, h, p. auto.
   - eapply url_rooms_dims_lemma in Hv; [|exact E]. destruct Hv as (w & h & p & Pw & Ph & Hs & ->). exists w, h, p. auto.
+Qed.
+
+(* the grid puzzles whose cell combinator is a leaf or alternatives of leaves: a decoded problem that
+   serializes decodes to itself again (C15's problem_roundtrip applied to the decoded value) *)
+Lemma grid_codecs_redecode_lemma : forall c,
+  In c [NURIKABE_COMBINATOR; MASYU_COMBINATOR; SLITHERLINK_COMBINATOR; SUDOKU_COMBINATOR; NURIMISAKI_COMBINATOR] ->
+  forall s t h w p, 1 <= h -> 1 <= w ->
+    deserialize_problem c s h w = Ok (Some p) -> serialize_problem c p h w = Ok t ->
+    deserialize_problem c t h w = Ok (Some p).
+Proof.
+  intros c Hin. simpl in Hin.
+  repeat (destruct Hin as [<-|Hin]; [intros s t h w p Hh Hw Hd Hs;
+    (eapply grid_redecode_lemma; [exact Hh|exact Hw| | |exact Hd|exact Hs]; vm_compute; reflexivity)|]).
+  contradiction.
 Qed.
